@@ -42,6 +42,7 @@ inductive V (α : Type)
   | pair (a b : V α)                 -- a 2-tuple
   | blist (l : List Bool)            -- a Python list of Booleans (verdicts of the interface-aware predicate)
   | rlist (l : List Rat)             -- a list of exact numbers (the time column of a data set)
+  | ivs (l : List (Int × Int))       -- a list of intervals `[[b, e], ...]` (explanations)
   deriving Repr, Inhabited
 
 inductive UnOp | neg | abs | sqrt | exp | ln | not | truthy | frac | numer | denom | toInt | unitNs
@@ -73,6 +74,8 @@ inductive E
   | tuple (a b : E)                  -- (a, b)
   | ifExp (c a b : E)                -- a if c else b
   | strLit (s : String)              -- a string constant (values of the `Semantics` enumeration)
+  | sorted (e : E)                   -- sorted(e)   (e: a list of intervals)
+  | lastSnd (e : E)                  -- e[-1][1]    (e: a list of intervals)
   | unsupported (what : String)
   deriving Repr, Inhabited
 
@@ -91,6 +94,9 @@ inductive S
   | reverseLoc (x : String)                              -- x.reverse()
   | insertLoc (x : String) (pos e : E)                   -- x.insert(pos, e)
   | forEnum (i x : String) (it : E) (body : S)           -- for i, x in enumerate(it)   (it: a list of floats or of Booleans)
+  | unpack (a b : String) (e : E)                        -- a, b = e     (e: a pair)
+  | forPair (a b : String) (it : E) (body : S)           -- for a, b in it   (it: a list of intervals)
+  | setLastSnd (x : String) (e : E)                      -- x[-1][1] = e     (x local: a list of intervals)
   | unsupported (what : String)
   deriving Repr, Inhabited
 
@@ -168,6 +174,8 @@ def evalUn : UnOp → V α → Except PyErr (V α)
   | .not, .bool b => .ok (.bool (!b))
   | .truthy, .none => .ok (.bool false)
   | .truthy, .bool b => .ok (.bool b)
+  | .truthy, .ivs l => .ok (.bool (!l.isEmpty))
+  | .truthy, .dlist l => .ok (.bool (!l.isEmpty))
   | .neg, .rat q => .ok (.rat (-q))
   | .frac, .rat q => .ok (.rat q)                       -- Fraction(x)
   | .frac, .int n => .ok (.rat n)
@@ -244,6 +252,16 @@ def evalBin (op : BinOp) (a b : V α) : Except PyErr (V α) :=
           | .add, some a, some b => .ok (.list (a ++ b))           -- list concatenation
           | _, _, _ => .error .type
 
+/-- `sorted` on a list of `[b, e]` lists: lexicographic order. -/
+def sortIvs (l : List (Int × Int)) : List (Int × Int) :=
+  l.mergeSort (fun p q => decide (p.1 < q.1) || (decide (p.1 = q.1) && decide (p.2 ≤ q.2)))
+
+/-- `l[-1][1] = v` -/
+def setLastSnd : List (Int × Int) → Int → List (Int × Int)
+  | [], _ => []
+  | [p], v => [(p.1, v)]
+  | p :: q :: rest, v => p :: setLastSnd (q :: rest) v
+
 def evalIdx : V α → V α → Except PyErr (V α)
   | .deque _ l, .int i => if i < 0 then .error .index else (idx l i.toNat).map .num
   | .dlist l, .int i =>
@@ -256,6 +274,11 @@ def evalIdx : V α → V α → Except PyErr (V α)
       if i < 0 then .error .index else
       match l[i.toNat]? with
       | some q => .ok (.rat q)
+      | none => .error .index
+  | .ivs l, .int i =>
+      if i < 0 then .error .index else
+      match l[i.toNat]? with
+      | some p => .ok (.pair (.int p.1) (.int p.2))
       | none => .error .index
   | _, _ => .error .type
 
@@ -286,6 +309,7 @@ def evalE (env : Env α) : E → Except PyErr (V α)
       | .deque _ l => .ok (.int l.length)
       | .str u => .ok (.int u.length)
       | .rlist l => .ok (.int l.length)
+      | .ivs l => .ok (.int l.length)
       | v => match asList v with
              | some l => .ok (.int l.length)
              | none => .error .type
@@ -332,6 +356,18 @@ def evalE (env : Env α) : E → Except PyErr (V α)
       let y ← evalE env b
       pure (.pair x y)
   | .strLit t => .ok (.str t)
+  | .sorted e => do
+      match (← evalE env e) with
+      | .ivs l => .ok (.ivs (sortIvs l))
+      | .dlist [] => .ok (.dlist [])
+      | _ => .error .type
+  | .lastSnd e => do
+      match (← evalE env e) with
+      | .ivs l => match l.getLast? with
+                  | some p => .ok (.int p.2)
+                  | none => .error .index
+      | .dlist [] => .error .index
+      | _ => .error .type
   | .ifExp c a b => do
       match (← evalE env c) with
       | .bool true => evalE env a
@@ -347,6 +383,8 @@ def appendV : V α → V α → Except PyErr (V α)
   | .blist l, .bool b => .ok (.blist (l ++ [b]))
   | .dlist l, .deque c d => .ok (.dlist (l ++ [(c, d)]))
   | .list l, .num x => .ok (.list (l ++ [x]))
+  | .dlist [], .pair (.int a) (.int b) => .ok (.ivs [(a, b)])
+  | .ivs l, .pair (.int a) (.int b) => .ok (.ivs (l ++ [(a, b)]))
   | _, _ => .error .type
 
 def exec : S → Env α → Except PyErr (Env α)
@@ -417,6 +455,22 @@ def exec : S → Env α → Except PyErr (Env α)
           | some l => l.zipIdx.foldlM (fun env p =>
               exec body { env with loc := setKey x (.num p.1) (setKey i (.int (p.2 : Nat)) env.loc) }) env
           | none => throw .type
+  | .unpack a b e, env => do
+      match (← evalE env e) with
+      | .pair x y => pure { env with loc := setKey b y (setKey a x env.loc) }
+      | _ => throw .type
+  | .forPair a b it body, env => do
+      match (← evalE env it) with
+      | .ivs l => l.foldlM (fun env p =>
+          exec body { env with loc := setKey b (.int p.2) (setKey a (.int p.1) env.loc) }) env
+      | .dlist [] => pure env
+      | _ => throw .type
+  | .setLastSnd x e, env => do
+      match (← getKey x env.loc), (← evalE env e) with
+      | .ivs (p :: l), .int v => pure { env with loc := setKey x (.ivs (setLastSnd (p :: l) v)) env.loc }
+      | .ivs [], .int _ => throw .index
+      | .dlist [], .int _ => throw .index
+      | _, _ => throw .type
   | .unsupported _, _ => .error .other
 
 /-- Call of a method on an object with attribute store `self`. -/
